@@ -204,8 +204,9 @@ func jstrs(v sm.JValue, k string) ([]string, bool) {
 	return out, true
 }
 
+// sameKeys: the object carries (at least) the given keys — additional fields would not contradict the statement.
 func sameKeys(v sm.JValue, keys ...string) bool {
-	if v.Kind != sm.JObj || len(v.Keys) != len(keys) {
+	if v.Kind != sm.JObj {
 		return false
 	}
 	for _, k := range keys {
